@@ -45,6 +45,8 @@ def scene_xml(c, r):
            "mat_visible_geom_alpha0": ' material="mat_vis" rgba="0.5 0.5 0.5 0"'}[g["vis"]]
     sz = f' size="{size}"' if size else ""
     per_home[g["home"]].append(f'<geom name="g{i}" type="{t}"{sz}{extra} pos="{family._v(pos)}" quat="{family._v(quat)}" group="{g["group"]}"{vis}/>')
+  flex = {"none": "", "cloth": '<flexcomp name="fx" type="grid" count="3 3 1" spacing=".25 .25 .1" pos="0.3 -0.2 0.4" dim="2" radius="0.02" mass="0.5"><contact selfcollide="none"/></flexcomp>',
+          "rope": '<flexcomp name="fx" type="grid" count="4 1 1" spacing=".25 .25 .1" pos="-0.3 0.2 -0.4" dim="1" radius="0.02" mass="0.5"><contact selfcollide="none"/></flexcomp>'}[c.get("flex", "none")]
   inert = '<inertial pos="0 0 0" mass="1" diaginertia=".1 .1 .1"/>'
   xml = f"""<mujoco><option><flag contact="disable"/></option><size memory="20M"/><asset>{"".join(assets)}</asset><worldbody>
     {"".join(per_home["world"])}
@@ -52,6 +54,7 @@ def scene_xml(c, r):
     <body name="moving1" pos="0.2 0.1 0.1">{inert}<freejoint/>{"".join(per_home["moving1"])}</body>
     <body name="moving2" pos="-0.2 0.1 -0.1">{inert}<joint type="hinge" axis="0 0 1"/><joint type="slide" axis="1 0 0"/>{"".join(per_home["moving2"])}
       <body name="moving2_child" pos="0.1 0.2 0">{inert}<joint type="hinge" axis="0 1 0"/>{"".join(per_home["moving2_child"])}</body></body>
+    {flex}
   </worldbody></mujoco>"""
   return xml
 
@@ -193,7 +196,7 @@ def build(c, seed, nray):
   for w in range(nworld):
     qpos[w, :3] += r.uniform(-0.3, 0.3, size=3)
     qpos[w, 3:7] = family._unit(r, 4)
-    qpos[w, 7:] = r.uniform(-0.6, 0.6, size=mjm.nq - 7)
+    qpos[w, 7:10] = r.uniform(-0.6, 0.6, size=3)   # hinge, slide, hinge; flex vertices (if any) stay at rest
   wp.copy(d.qpos, wp.array(qpos.astype(np.float32), dtype=float))
   mjw.kinematics(m, d)
   rc = mjw.create_render_context(mjm, nworld=nworld, enabled_geom_groups=[0, 1, 2, 3, 4, 5], cam_res=(2, 2))
